@@ -91,7 +91,9 @@ def run(sc, trace=None):
                                   ops={w.name(o): s.value for p in w.pipelines for o, s in p.runtime_status().operator_states.items()}))
             if w.ended:
                 e = w.exception
-                w.flag({"C08"}, "executor-raised", f"tick {t}: {type(e[2]).__name__}: {e[2]}", e[3])
+                # signature by what was wrong with the decision (the reference executor's reason), not by where or
+                # with which words the implementation happened to refuse it
+                w.flag({"C08"}, "executor-raised", f"tick {t}: {type(e[2]).__name__}: {e[2]}", ("model-reject:" + w.last_reject) if w.last_reject else e[3])
                 break
             for m in w.mm[n_before:]:
                 if m.kind == "inadmissible-command-executed":
